@@ -388,7 +388,7 @@ func (c *Ctx) sortedBeforeScaleDown(r *Reconcile) {
 	recv := less.Decl.Recv.List[0].Names[0]
 	pi, pj := less.Decl.Type.Params.List[0].Names[0], less.Decl.Type.Params.List[0].Names[1]
 	want := c.Want(lfn, less.Decl.Body.Pos(), "getOrdinal($1[$2]) < getOrdinal($1[$3])", recv, pi, pj)
-	c.Check(got != nil && got.String() == want.String(), "C05.3-comparator", cmpType.Obj().Name()+".Less", less.Decl.Pos(),
+	c.Check(got != nil && got.Key() == want.Key(), "C05.3-comparator", cmpType.Obj().Name()+".Less", less.Decl.Pos(),
 		"comparator orders by pod ordinal, ascending", "comparator is not `getOrdinal(x[i]) < getOrdinal(x[j])`")
 }
 
@@ -509,7 +509,7 @@ func runC14(c *Ctx) {
 		cond := fn.Formula(r.KLoop.Cond)
 		idx := r.KLoop.Init.(*ast.AssignStmt).Lhs[0]
 		want := c.Want(fn, r.KLoop.Body.Pos(), "$1 >= 0", idx)
-		c.Check(cond.String() == want.String(), "C14.2-all-condemned-visited", r.FI.Obj.Name()+": scale-down loop condition", r.KLoop.Pos(),
+		c.Check(cond.Key() == want.Key(), "C14.2-all-condemned-visited", r.FI.Obj.Name()+": scale-down loop condition", r.KLoop.Pos(),
 			"the walk runs down to index 0", "the scale-down walk stops before index 0")
 	}
 	// the wanted loop ranges over the whole wanted slice
